@@ -16,6 +16,60 @@ CHECKS = {
         note="trusted: vf/oracle/classical.py (subset enumeration); CPython; oracle skipped when C(n,k)>2e5",
         ref="DESIGN.md §4 C01",
     ),
+
+    "C02": dict(
+        technique="runtime monitoring: monitors on every Av query method + hook on Av._ensure_level (inside the critical section) "
+                  "decided by brute-force avoiders; random operation histories with resumed iterators, clear_cache, other classes",
+        text="Every query issued in ~1400 (quick) random/enumerated histories, and every level the cache ever built, is compared with "
+             "brute-force avoiders of the raw basis (classical by definition, mesh by cell geometry) up to length 7/6 (8/7 thorough). "
+             "is_subclass: exact criterion for classical bases, bounded refutation with mesh bases. Exploration only.",
+        note="trusted: vf/oracle/{classical,mesh}.py, vf/avmodel.py; lengths above the bound are not judged; known findings K4/K5 classified by mechanism",
+        ref="DESIGN.md §4 C02",
+    ),
+    "C03": dict(
+        technique="runtime monitoring: generator proxies on MeshPatt/BivincularPatt.occurrences_in and recorders on the containment entry "
+                  "points, decided by cell geometry and by the adjacency definition of bivincular requirements",
+        text="Every shading of every pattern of length <=2 and every requirement pair of length <=2 (<=3 thorough) against all texts of "
+             "length <=5 (6), plus sparse random longer patterns and mixed-argument containment calls. Exploration only.",
+        note="trusted: vf/oracle/mesh.py (cell = #positions left, #values below), classical census",
+        ref="DESIGN.md §4 C03",
+    ),
+    "C04": dict(
+        technique="runtime monitoring: recorders on every symmetry operation of Perm/MeshPatt and on permutils.symmetry, decided by the "
+                  "isometries of the square acting on points and cell centres; equivariance triples; CLI output captured",
+        text="All of S_0..S_6 (S_7 thorough) under all named symmetries and rotation counts -9..9, every mesh pattern of length <=2, "
+             "random asymmetric shadings, containment equivariance, orbit sets, lex_min constancy and the lexmin CLI. Exploration only.",
+        note="trusted: vf/oracle/geometry.py; rotate(1) taken to be the clockwise quarter turn",
+        ref="DESIGN.md §4 C04",
+    ),
+    "C05": dict(
+        technique="runtime monitoring: recorders on Basis.__new__/MeshBasis.__new__ (every construction, also inside Av) decided by class "
+                  "comparison with brute-force avoiders and oracle mesh-in-mesh containment; order/repetition metamorphic workload",
+        text="Every multiset of <=3 patterns of S_1..S_3 in every order and ~1500 random mixed collections in up to 24 orders: same class "
+             "as the raw input up to length 6, minimal, order independent, fixed point, equal hashes, Av identity, from_string 0/1-based. "
+             "Exploration only.",
+        note="trusted: oracles; class comparison bounded by N; K5 classified by mechanism",
+        ref="DESIGN.md §4 C05",
+    ),
+    "C07": dict(
+        technique="runtime monitoring under stress: multi-threaded histories with sys.monitoring LINE-event yield injection in permset.py, "
+                  "setswitchinterval(1e-6), lock proxy, invariant hook inside the critical section, per-operation sequential oracle, "
+                  "deadlock detection by stack inspection",
+        text="160 (quick) / 2000 (thorough) multi-threaded cases, each decided operation by operation against the sequential model; the "
+             "evidence reports yields injected, lock acquisitions, hook activations and distinct interleavings seen. Sampled schedules "
+             "only: a race needing a preemption inside one bytecode is out of reach.",
+        note="trusted: CPython thread switching at statement boundaries; sequential oracle; a watchdog expiry that is not a lock deadlock is inconclusive",
+        ref="DESIGN.md §4 C07",
+    ),
+    "C08": dict(
+        technique="runtime monitoring: shadow table (object -> first hash) behind __hash__, recorders on __eq__ and the ordering operators; "
+                  "law checking over all pairs / triples of a universe; hash-stability histories with seeded allocation churn and gc",
+        text="~500 values (permutations, all mesh patterns of length <=1, sampled longer ones, all bivincular-type patterns of length <=2 "
+             "with MeshPatt twins, bases), all ordered pairs, 10^5 triples, 3000 churn histories. Exploration only.",
+        note="order on mesh-type patterns only required to be a total order consistent with ==; cross-kind equality (Perm vs Basis) only "
+             "required not to fail and to agree with hashing",
+        ref="DESIGN.md §4 C08",
+    ),
 }
 
 NOT_YET = {}
